@@ -4,6 +4,8 @@ set-based, without using gemato's loader or its path helpers.
 """
 import posixpath
 
+from vf.modelfs import crash_origin  # noqa: E402
+
 from vf import sym
 from vf.modelfs import ROOT, digest_for
 
@@ -255,7 +257,7 @@ def run_verify(fs, top='Manifest', path='', last_mtime=None, fail_handler=None,
             return 'error:' + type(e).__name__
         except (AssertionError, AttributeError, KeyError, IndexError, TypeError,
                 ValueError, NotImplementedError, UnboundLocalError, OverflowError) as e:
-            return 'crash:' + type(e).__name__
+            return crash_origin(e)
 
 
 def expected_outcomes(v):
@@ -392,4 +394,4 @@ def run_update(fs, top='Manifest', path='', hashes=('MD5',), sort=False, force=F
                 ValueError, NotImplementedError, UnboundLocalError) as e:
             # an internal error escaping the library is C18's subject, not a completed
             # update; callers decide what to make of it
-            return 'crash:' + type(e).__name__
+            return crash_origin(e)
